@@ -8,7 +8,7 @@ import re
 from .. import core, runner
 from . import c03
 
-NAMES = ["", "a", "b", "é"]
+NAMES = ["", "a", "b", "é", "e\u0301"]      # incl. two canonically equivalent but different spellings (NFC / NFD)
 
 
 # ---------------------------------------------------------------------------
@@ -712,7 +712,7 @@ CORPUS = {
 
 
 def run_property(prop, tier, theorems, profile, nscripts, nontrivial_rule, nontrivial_counter, theorem_hint, stated_not_proved=(),
-                 extra_stream=None):
+                 extra_stream=None, reentry_eps=None):
     chk = core.Check(prop, tier)
     chk.obligations(theorems, stated_not_proved)
     rnd = core.rng(prop)
@@ -728,6 +728,11 @@ def run_property(prop, tier, theorems, profile, nscripts, nontrivial_rule, nontr
         for idx, msg in oracle(chk if m == "c" else Null(), lines, outs):
             s, e = runner.script_of(lines, idx)
             fails.append(dict(mode=m, script=lines[s:e], message=msg, observed=outs[idx], index=idx))
+    if reentry_eps:
+        from . import worldcommon
+        rf = worldcommon.reentry_stage(chk, reentry_eps)
+        worldcommon.report_reentry(chk, rf)
+        fails += rf
     if extra_stream is not None:
         for f in extra_stream(chk, tier):
             chk.violation("%s [mode=%s]" % (f["message"], f["mode"]),
@@ -737,7 +742,7 @@ def run_property(prop, tier, theorems, profile, nscripts, nontrivial_rule, nontr
             break
     seen = set()
     for f in fails:
-        if f.get("layer") == "world":
+        if f.get("layer") in ("world", "reentry"):
             continue
         k = msg_kind(f["message"])
         if k in seen:
@@ -770,6 +775,9 @@ def replay(prop, path):
     rep = runner.load_replay(path)
     script = rep["script"]
     mode = rep.get("mode", "c")
+    if rep.get("layer") == "reentry":
+        from . import worldcommon
+        return worldcommon.replay_reentry(prop, rep, path)
     if rep.get("layer") == "world":
         out = core.run_impl("world", script, mode, ["twin"])
         for l, o in zip(script, out):
